@@ -18,6 +18,9 @@ grouping used in several config contexts with augments by different modules into
           ReadOnly) evaluated on the (kind, config) path of every node of the implementation's dump: ReadOnly() must
           equal it.  The pinned upward walk (ro_up_pinned) is evaluated alongside; nodes on which it differs from the
           wording (`config true` below an output, D58, fixed by c376f44) are counted in the evidence.
+  print   (implementation, harness/go/c12.go print12) Entry.Print is started at EVERY entry of every tree, rpc/action
+          input and output entries included; the RO:/rw: marker of every printed line must be the read-only flag of that
+          node.
 Both departures found while building this check are fixed in /repo (D58 c376f44; D59 20ac024: the implicit case around a
 shorthand member grafted by another module's augment reported the augmented module's namespace); a recurrence is a
 violation.
@@ -325,6 +328,53 @@ def spec_check(res, work, stats):
                           dict(kind="spec", schema=sc, node=list(where)))
 
 
+def print_check(res, work, stats):
+    """Entry.Print started at EVERY entry (rpc/action input and output entries included): the RO:/rw: marker of every
+    printed line must be the read-only flag of that node (the dump's flag, which the tie compares with the model's
+    ReadOnly and the spec leg with ro_text)"""
+    lines = []
+    for sc, _ in work:
+        toks = ["print12", "-", str(len(sc))]
+        for m in sc:
+            toks += [sg.hx(m["name"] + ".yang"), sg.hx(sg.render_module(m))]
+        lines.append(" ".join(toks))
+    outs = lib.run_go(lines)
+    import json
+    for (sc, run), o in zip(work, outs):
+        rep = dict(kind="print", schema=sc)
+        if not o.startswith("{"):
+            res.violation("print12 crashed on the implementation: %s" % o[:300], rep)
+            continue
+        j = json.loads(o)
+        if j["runs"][-1]["errors"]:
+            res.violation("print12: a module set that processed cleanly does not any more", rep)
+            continue
+        want = {}
+
+        def go(n, pos):
+            marks = "R" if n["ro"] else "w"
+            for c in sorted(n.get("children") or [], key=lambda c: c["name"].encode()):
+                marks += go(c, pos + "/C" + c["name"].encode().hex())
+            want[pos] = marks
+            if n.get("input"):
+                go(n["input"], pos + "/I")
+            if n.get("output"):
+                go(n["output"], pos + "/O")
+            return marks
+        for m in run["modules"]:
+            if not m["sub"]:
+                go(m["tree"], sg.hx(m["name"]))
+        got = dict(p.split("|", 1) for p in j["prints"])
+        bad = 0
+        for pos in sorted(want):
+            stats["print_starts"] += 1
+            stats["print_lines"] += len(want[pos])
+            if got.get(pos) != want[pos] and bad < 2:
+                bad += 1
+                res.violation("Print started at %s marks its lines %s, ReadOnly() of those nodes gives %s (R = read-only, w = read-write)"
+                              % (pos, got.get(pos), want[pos]), dict(rep, start=pos, got=got.get(pos), want=want[pos]))
+
+
 def oracle_check(res, schema, run, stats):
     try:
         trees = build(schema)
@@ -487,7 +537,8 @@ def run(res, tier, seed, proof):
     rnd = random.Random(seed)
     n = 320 if tier == "quick" else 6000
     stats = dict(status={}, oracle_skipped={}, oracle_sets=0, oracle_nodes=0, foreign_ns_nodes=0, ro_nodes=0,
-                 tie_ok=0, tie_err=0, spec_nodes=0, pinned_walk_differs=0, config_true_below_output_nodes=0)
+                 tie_ok=0, tie_err=0, spec_nodes=0, pinned_walk_differs=0, config_true_below_output_nodes=0,
+                 print_starts=0, print_lines=0)
     sets = [(s, True) for s in feature_schemas()] + gen_schemas(rnd, n)
     mism = 0
     for i in range(0, len(sets), 500):
@@ -515,6 +566,7 @@ def run(res, tier, seed, proof):
             if st == "ok":
                 spec_work.append((sc, j["runs"][-1]))
         spec_check(res, spec_work, stats)
+        print_check(res, spec_work, stats)
     clean = stats["status"].get("ok", 0)
     cov = dict(
         evaluations=len(sets) + stats["oracle_nodes"] + stats["spec_nodes"], distinct_nontrivial=stats["oracle_nodes"],
@@ -528,6 +580,7 @@ def run(res, tier, seed, proof):
                           oracle_sets=stats["oracle_sets"], oracle_nodes=stats["oracle_nodes"],
                           nodes_with_foreign_namespace=stats["foreign_ns_nodes"], read_only_nodes=stats["ro_nodes"],
                           oracle_skipped=stats["oracle_skipped"], spec_nodes=stats["spec_nodes"],
+                          print_starts=stats["print_starts"], printed_lines_checked=stats["print_lines"],
                           nodes_where_pinned_walk_differs=stats["pinned_walk_differs"],
                           nodes_with_config_true_below_output=stats["config_true_below_output_nodes"]),
         samples=[sg.render_module(m)[:300] for m in sets[0][0][:2]],
@@ -554,6 +607,12 @@ def replay(rep, res):
     print("impl :", (want or st)[:2000])
     print("model:", m[:2000])
     rc = 0 if m == want else 1
+    if st == "ok" and rep.get("kind") == "print":
+        r2 = lib.Result("C12", "quick", 0)
+        print_check(r2, [(sc, j["runs"][-1])], dict(print_starts=0, print_lines=0))
+        for what, _, _ in r2.violations:
+            print("print:", what)
+            rc = 1
     if st == "ok" and rep.get("kind") == "oracle":
         r2 = lib.Result("C12", "quick", 0)
         stats = dict(oracle_skipped={}, oracle_sets=0, oracle_nodes=0, foreign_ns_nodes=0, ro_nodes=0)
